@@ -97,7 +97,11 @@ EXERCISED = (
     "write faults in the life of one socket; installations without zones across many "
     "init/shutdown cycles; the AC status timer flag flipping between commands; a console "
     "that stops answering while the link stays up; reset_connection() called by the "
-    "application during the back-off; AT4 timer commands for several ACs in a row")
+    "application during the back-off; AT4 timer commands for several ACs in a row; names "
+    "beginning with U+FEFF or containing the model marker; buffers of 4097 and 8193 bytes; "
+    "held messages sharing a packet number; error texts ending in blanks; a connection lost "
+    "in mid-frame; a slow connect followed by a silent console; lifetimes that decrease "
+    "from one held message to the next")
 
 T = """You are helping to evaluate a verification harness by producing a *subtle, realistic regression* in a Python library.
 
